@@ -770,6 +770,15 @@ def sweep_loop(idx: Index):
             it = through_caller(deref(sim.node, n.iter))
             if isinstance(it, ast.Call) and call_name(it) == "timerange":
                 loops.append((n, it))
+            elif isinstance(it, ast.Call) and isinstance(it.func, ast.Attribute) and dotted(it.func.value) == "self" and sim.cls:
+                # the grid comes from a helper that may keep it in a validated memo: every way the helper answers is one and the same
+                # timerange(...) over its arguments (util.value_alternatives)
+                from ..util import value_alternatives
+                cnode = idx.modules[SDSIM].classes[sim.cls].node
+                alts = value_alternatives(cnode, sim.node, it)
+                texts = {src(x) for x in alts}
+                if alts and len(texts) == 1 and isinstance(alts[0], ast.Call) and call_name(alts[0]) == "timerange":
+                    loops.append((n, alts[0]))
     if len(loops) != 1 or not isinstance(loops[0][0].target, ast.Name):
         raise AnalysisError("SdSimulation.__simulate: sweep loop over timerange() not found")
     lp, rng = loops[0]
